@@ -543,3 +543,6 @@ PROPS["C04"]["twins"].append(dict(name="is_excluded", repo_fn="src/bin/copia/pla
     contract="is_excluded against the reference exclude rule, incl. names and patterns with 2-, 3- and 4-byte characters (`?` is one CHARACTER)"))
 PROPS["C04"]["fallback_searches"] += ["is_excluded", "glob_match"]
 PROPS["C15"]["twins"].append(dict(BISYNC_TWIN, only_re=r"\(C15\)"))
+PROPS["C15"]["twins"].append(dict(name="delivers_plan", repo_fn="src/bin/copia/incremental.rs run_local/run_remote (whole REAL run)", quick=1, thorough=1, needs_cli=True, only_re=r"\(C15\)",
+    contract="real (not dry) `copia sync -r` runs of the C04 oracle, three directions x six flag sets plus the empty-source and file-vs-directory trees (incl. --delete with an EXCLUDED file inside the directory that is in the way): however the run ends, a destination path the patterns exclude is exactly as it was, and without --delete no destination-only path is gone",
+    bounded="whole runs of the real binary have no contract (spawned tasks, ssh children): bounded stand-in. Bound: the C04 trees, 6 flag sets, 3 directions"))
